@@ -283,15 +283,16 @@ class PointTier(textgrid_tier.TextgridTier):
                 newTier.deleteEntry(point)
 
         if doShrink is True:
+            # start + (t - end), the expression IntervalTier.eraseRegion uses,
+            # so that all tiers of a textgrid get the same new end
             newEntries = []
-            diff = end - start
             for point in newTier.entries:
                 if point.time < start:
                     newEntries.append(point)
                 elif point.time > end:
-                    newEntries.append(Point(point.time - diff, point.label))
+                    newEntries.append(Point(start + (point.time - end), point.label))
 
-            newMax = newTier.maxTimestamp - diff
+            newMax = start + (newTier.maxTimestamp - end)
             newTier = newTier.new(entries=newEntries, maxTimestamp=newMax)
 
         return newTier
